@@ -1,12 +1,45 @@
 CFG = dict(
-    n={'quick': 1500, 'thorough': 40000},
+    n={'quick': 1500, 'thorough': 20000},
     oracle=True,
     reference=True,
-    corr='Sig.ecdsa_verify / ed25519_verify / pkcs1_verify / pss_verify, DER.der_decode / der_encode, Sig.p1363_* (model over stdlib oracles) vs tink-go Sign/Verify and the ECDSA codecs on fresh signatures, their mutations and re-encodings',
+    corr='Sig.ecdsa_verify / ed25519_verify / pkcs1_verify / pss_verify, DER.der_decode / der_encode / parse_sig, Sig.p1363_* '
+         '(extracted model over stdlib oracles) vs tink-go Sign/Verify (per-key constructors, keyset handle + signature factory, '
+         'signature/subtle, internal/signature) and the ECDSA codecs, on fresh signatures, their mutations and re-encodings',
     coq_targets=['props/C03.vo'],
+    rule='one case = (kind V/S/D/E, API, scheme, parameters, variant, mutation label, observed result); distinct = distinct such '
+         'class strings computed by the harness; all random choices from one PRNG state (VERIF_SEED); RSA keys are fresh per run',
+    trusted=['stdlib oracle ops: hash, ecdsa_verify (crypto/ecdsa.Verify on (r,s)), ed25519_verify, rsa_pkcs1_verify; '
+             'rsa_pss_verify_strict = harness/p/c03/pssref (RFC 8017 EMSA-PSS transcription over math/big, salt length enforced exactly; '
+             'cross-checked against crypto/rsa.VerifyPSS for every sLen >= 1 case)',
+             'oracle hypotheses of the sign-then-verify theorems: raw_verify pk h (raw_sign sk h) = true, r,s < 256^field_size, |ed25519 sig| = 64'],
+    assumptions=['ECDSA / EdDSA / RSA mathematics and the hash functions are oracles (Section variables): the theorems hold for every instantiation',
+                 'DER lengths of 2^32 bytes and more are outside the theorem (cryptobyte accepts at most 4 length octets; side condition der_fits)'],
 )
 MANIFEST = dict(
-    text='placeholder',
-    note='placeholder',
-    technique='Coq proof (canonical uniqueness of the DER and P1363 codecs, exact acceptance set of the verifiers, no panic) + differential run of the extracted model with stdlib oracles against tink-go',
+    text='Theorems in coq/props/C03.v about executable Gallina models of the tink-go signature layer (model/DER.v: strict DER of '
+         'SEQUENCE{INTEGER r, INTEGER s} as ASN1Decode/ASN1Encode and crypto/ecdsa.VerifyASN1 accept and produce it; model/Sig.v: output prefix '
+         'and its check, LEGACY 0x00 suffix, hash choice, IEEE P1363 fixed-width codec 64/96/132, Ed25519 64-byte rule, RSA modulus >= 2048 / '
+         'e = 65537 / hash rules, PSS salt length passed to the verification), with the standard algorithms as universally quantified oracles: '
+         '(1) canonical uniqueness of DER: for every byte string b and all integers r, s, der_decode b = Some (r,s) <-> b = der_encode r s '
+         '(so non-minimal INTEGERs, leading 00/ff, long-form/indefinite lengths, trailing bytes inside or outside are rejected; negative values '
+         'are rejected by the verification-path parser); (2) P1363 encode/decode are mutually inverse and every other length is rejected; '
+         '(3) exact acceptance sets: Verify accepts sig for msg <-> sig = prefix || encoding(r,s) with raw_verify pk H(msg || legacy suffix) r s '
+         '(ECDSA), <-> sig = prefix || 64-byte body accepted by Ed25519, <-> sig = prefix || body accepted by RSASSA-PKCS1 / RSASSA-PSS with '
+         'exactly the key\'s salt length; (4) Sign output verifies under the oracle law; (5) wrong or missing prefix, other key id/variant, '
+         'wrong-length P1363 are rejected; LEGACY = CRUNCHY over msg||00; (6) no input makes a verifier panic (checked slices); (7) key rules. '
+         'The models are tied to the code by running the extracted model (OCaml, stdlib oracle for hash/ECDSA/Ed25519/RSA) and tink-go on the same '
+         'cases: fresh Tink signatures for every curve x hash x encoding x variant, Ed25519, RSA 2048/3072 x SHA256/384/512 x PKCS1/PSS salt '
+         'lengths through four API levels, and a mutation / re-encoding stream (non-minimal INTEGER, leading 00/ff, long-form and indefinite '
+         'lengths, trailing bytes, negative, zero, r+n, n-s, swapped, wrong width, prefix edits, other key, other variant/hash/salt, modified '
+         'message, truncation, bit flips, random strings) with exact accept/reject prediction; plus a direct oracle (no model) comparing tink-go '
+         'with a stdlib-only strict verifier, checking own signatures, stdlib-equality of deterministic signatures and rejection of mutants.',
+    note='Trusted: Coq kernel, ExtrOcamlBasic extraction + OCaml glue, the Go harness and the stdlib oracle (Go standard library taken as the '
+         'definition of the standard algorithms; RSASSA-PSS with an exactly enforced salt length is a 100-line RFC 8017 transcription because '
+         'crypto/rsa reads salt length 0 as auto). The models are hand-written: the tie is the correspondence on the explored cases, not a '
+         'translation. Cryptographic unforgeability is not a theorem: "modified signatures are rejected" is proved in the set-theoretic form '
+         '(accepted iff it is the unique encoding of a pair the standard verification accepts) and exercised on mutants. Multi-key keysets are C05. '
+         'KNOWN FINDING: RSA-SSA-PSS keys with SaltLengthBytes = 0 do not bind the salt length (0 = PSSSaltLengthAuto in crypto/rsa): Sign emits a '
+         'maximal salt that a strict sLen=0 verifier rejects, Verify accepts any salt length; listed in known_findings.json.',
+    technique='Coq proof (canonical uniqueness of the DER and P1363 codecs by arithmetic on big-endian digits, exact acceptance sets by case analysis, '
+              'no-panic by checked slices) + differential run of the extracted model with stdlib oracles against tink-go on fresh signatures and mutants',
 )
